@@ -1126,6 +1126,37 @@ func specSregBytesAt(out []byte, off int, enc int) bool {
 //@ assigns OperandPegImpl.bitMode, OperandType[]
 
 // ---------------------------------------------------------------------------
+// LGDT [label] (SDM Vol. 2): 0F 01 /2 with a direct address - ModR/M 16h + disp16 in 16-bit mode,
+// 15h + disp32 in 32-bit mode; the displacement is the label's address. An operand that is not a
+// bracketed, defined label is an error (C07: never an address made up silently).
+// ---------------------------------------------------------------------------
+
+func specLGDTLabel(op string) string {
+	if len(op) < 2 {
+		return ""
+	}
+	return strings.TrimSpace(op[1 : len(op)-1])
+}
+
+func specLGDTShape(op string) bool {
+	return strings.HasPrefix(op, "[") && strings.HasSuffix(op, "]")
+}
+
+func specLGDTDefined(tab map[string]int32, op string) bool {
+	_, ok := tab[specLGDTLabel(op)]
+	return ok
+}
+
+//@ func handleLGDT
+//@ props C01 C03 C07
+//@ requires ctx != nil && (ctx.BitMode == cpu.MODE_16BIT || ctx.BitMode == cpu.MODE_32BIT)
+//@ ensures[count@C07] len(operands) != 1 ==> result1 != nil
+//@ ensures[shape@C07] len(operands) == 1 && !specLGDTShape(operands[0]) ==> result1 != nil
+//@ ensures[undefined@C07] len(operands) == 1 && specLGDTShape(operands[0]) && !specLGDTDefined(ctx.SymTable, operands[0]) ==> result1 != nil
+//@ ensures[enc16@C01+C03] result1 == nil && ctx.BitMode == cpu.MODE_16BIT ==> len(result0) == 5 && result0[0] == 0x0F && result0[1] == 0x01 && result0[2] == 0x16 && specLE(result0[3:], ctx.SymTable[specLGDTLabel(operands[0])])
+//@ ensures[enc32@C01+C03] result1 == nil && ctx.BitMode == cpu.MODE_32BIT ==> len(result0) == 7 && result0[0] == 0x0F && result0[1] == 0x01 && result0[2] == 0x15 && specLE(result0[3:], ctx.SymTable[specLGDTLabel(operands[0])])
+
+// ---------------------------------------------------------------------------
 // Mnemonics without operands (C01): processOcode answers them from a byte table
 // ---------------------------------------------------------------------------
 
